@@ -39,7 +39,7 @@ const (
 	kDelete
 	kSubV
 	kSubC
-	kSubCL // Collection.Pull without backpressure, consumer stalled until every call has returned
+	kSubL  // Collection.Pull / PullID (pid) WITHOUT backpressure; its consumer receives only at the schedule's reader steps, and keeps receiving once every thread has ended
 	kSubID // Collection.PullID, backpressured
 )
 
@@ -50,6 +50,9 @@ type fcall struct {
 	o    *fwo
 	ro   *fro
 	name string // template name, for the histogram
+	// kSubL: PullID(id) instead of Pull; the number of receives the consumer performs as schedule steps
+	pid   bool
+	nrecv int
 	// Add("") with WithGenIDIfAbsent: the byte strings this call's rng reads return, in order; the
 	// id the call reported through WithIDCallback replaces c.id before the case is printed, i.e.
 	// the model sees the call as Add(<reported id>) (see notes/C02.md, generated ids)
@@ -68,15 +71,18 @@ func (c *fcall) coq() string {
 		return vcoq.App("FDelete", vcoq.Str(c.id), c.o.coq())
 	case kSubV:
 		return vcoq.App("FSubV", c.ro.coq())
-	case kSubCL:
-		return vcoq.App("FSubCL", c.ro.coq())
+	case kSubL:
+		if c.pid {
+			return vcoq.App("FSubL", vcoq.App("Some", vcoq.Str(c.id)), c.ro.coq())
+		}
+		return vcoq.App("FSubL", "None", c.ro.coq())
 	case kSubID:
 		return vcoq.App("FSubID", vcoq.Str(c.id), c.ro.coq())
 	}
 	return vcoq.App("FSubC", c.ro.coq())
 }
 func (c *fcall) js() any {
-	m := map[string]any{"op": []string{"Value.Set", "Collection.Update", "Collection.Add", "Collection.Delete", "Value.Pull", "Collection.Pull", "Collection.Pull (no backpressure, reader behind)", "Collection.PullID"}[c.kind]}
+	m := map[string]any{"op": []string{"Value.Set", "Collection.Update", "Collection.Add", "Collection.Delete", "Value.Pull", "Collection.Pull", "Collection.Pull/PullID without backpressure (the consumer receives at the schedule entries naming this thread after its own steps, and until nothing is offered once every thread has ended)", "Collection.PullID"}[c.kind]}
 	switch c.kind {
 	case kSet:
 		m["msg"], m["opts"] = jsMsg(&c.msg), c.o.js()
@@ -86,13 +92,18 @@ func (c *fcall) js() any {
 		m["id"], m["opts"] = c.id, c.o.js()
 	case kSubID:
 		m["id"], m["read_opts"] = c.id, c.ro.js()
+	case kSubL:
+		m["read_opts"], m["reader_steps"] = c.ro.js(), c.nrecv
+		if c.pid {
+			m["pull_id"] = c.id
+		}
 	default:
 		m["read_opts"] = c.ro.js()
 	}
 	return m
 }
 func (c *fcall) isSub() bool {
-	return c.kind == kSubV || c.kind == kSubC || c.kind == kSubCL || c.kind == kSubID
+	return c.kind == kSubV || c.kind == kSubC || c.kind == kSubL || c.kind == kSubID
 }
 
 type fout struct {
@@ -116,6 +127,9 @@ type scenario struct {
 	cinit        []initItem // sorted by id
 	prog         []*fcall
 	tags         []string
+	// after[t]: thread t takes its first step only when these threads have ended (one writer issuing
+	// its calls one after the other = a chain); nil = no constraint
+	after map[int][]int
 }
 
 // ---------- one forced run ----------
@@ -142,7 +156,12 @@ type world struct {
 	mu       sync.Mutex
 	vgot     map[int][]ovchange
 	cgot     map[int][]ochange
-	lossy    map[int]<-chan *resource.CollectionChange
+	lossyC   map[int]<-chan *resource.CollectionChange // subscribers without backpressure: Pull
+	lossyV   map[int]<-chan *resource.ValueChange      // ... PullID
+	lgotC    map[int][]ochange                         // what their consumers have received
+	lgotV    map[int][]ovchange
+	lclosed  map[int]bool
+	lpid     map[int]string
 	rng      *gidRNG
 	extraIDs []string       // generated ids reported by the calls
 	pids     map[int]string // PullID subscribers: thread -> id
@@ -151,7 +170,7 @@ type world struct {
 }
 
 func newWorld(sc *scenario) *world {
-	w := &world{vgot: map[int][]ovchange{}, cgot: map[int][]ochange{}, lossy: map[int]<-chan *resource.CollectionChange{}, pids: map[int]string{}, closed: map[int]bool{}}
+	w := &world{vgot: map[int][]ovchange{}, cgot: map[int][]ochange{}, lossyC: map[int]<-chan *resource.CollectionChange{}, lossyV: map[int]<-chan *resource.ValueChange{}, lgotC: map[int][]ochange{}, lgotV: map[int][]ovchange{}, lclosed: map[int]bool{}, lpid: map[int]string{}, pids: map[int]string{}, closed: map[int]bool{}}
 	w.ctx, w.cancel = context.WithCancel(context.Background())
 	vopts := []resource.Option{resource.WithClock(&fakeClock{})}
 	if sc.vinit != nil {
@@ -247,14 +266,22 @@ func (w *world) exec(t int, c *fcall) fout {
 			w.mu.Unlock()
 		}()
 		return fout{}
-	case kSubCL:
+	case kSubL:
+		// no WithBackpressure option at all: the default
 		opts := []resource.ReadOption{resource.WithUpdatesOnly(c.ro.updatesOnly)}
 		if c.ro.hasMask {
 			opts = append(opts, resource.WithReadMask(maskOf(c.ro.mask)))
 		}
+		if c.pid {
+			ch := w.coll.PullID(w.ctx, c.id, opts...)
+			w.mu.Lock()
+			w.lossyV[t], w.lgotV[t], w.lpid[t] = ch, []ovchange{}, c.id
+			w.mu.Unlock()
+			return fout{}
+		}
 		ch := w.coll.Pull(w.ctx, opts...)
 		w.mu.Lock()
-		w.lossy[t] = ch
+		w.lossyC[t], w.lgotC[t] = ch, []ochange{}
 		w.mu.Unlock()
 		return fout{}
 	case kSubC:
@@ -290,17 +317,35 @@ func nilIfErr(m proto.Message, err error) proto.Message {
 // goroutine takes the second sentinel only after the consumer has taken the first, at which point
 // the (sequential) consumer has recorded everything earlier.
 func (w *world) finish(r *runResult) {
+	defer func() {
+		w.cancel()
+		w.wg.Wait()
+	}()
 	r.finalV = fromProto(w.val.Get())
 	for _, m := range w.coll.List() {
 		_ = m
 	}
 	r.finalC = w.list()
+	// the readers without backpressure keep receiving: until every goroutine of their pipelines is
+	// blocked and nothing is offered any more
+	for _, t := range w.lossyThreads() {
+		for {
+			got, err := w.readerStep(t)
+			if err != nil {
+				r.err = err
+				return
+			}
+			if !got {
+				break
+			}
+		}
+	}
 	st := resource.WithWriteTime(time.Unix(0, sentinelTime))
 	if len(w.vgot) > len(w.pids) {
 		w.val.Set(toProto(fmsg{9001, 9001, 9001}), st)
 		w.val.Set(toProto(fmsg{9002, 9002, 9002}), st)
 	}
-	if len(w.cgot) > 0 || len(w.lossy) > 0 {
+	if len(w.cgot) > 0 || len(w.lossyC) > 0 {
 		w.coll.Update("zz", toProto(fmsg{9001, 9001, 9001}), resource.WithCreateIfAbsent(), st)
 		w.coll.Update("zz", toProto(fmsg{9002, 9002, 9002}), resource.WithCreateIfAbsent(), st)
 	}
@@ -311,7 +356,8 @@ func (w *world) finish(r *runResult) {
 	}
 	// each PullID reader has either seen its sentinel or the close of its channel
 	for t := range w.pids {
-		deadline := time.Now().Add(stepTimeout)
+		start := time.Now()
+		final := false
 		for {
 			w.mu.Lock()
 			ok := w.closed[t]
@@ -324,39 +370,71 @@ func (w *world) finish(r *runResult) {
 			if ok {
 				break
 			}
-			if time.Now().After(deadline) {
+			if final || time.Since(start) > stepTimeout {
 				r.err = fmt.Errorf("the sentinel never reached the PullID subscriber of thread %d", t)
 				break
+			}
+			if stuck(start) {
+				final = true // every goroutine is blocked: look once more, then give up
+				continue
 			}
 			time.Sleep(50 * time.Microsecond)
 		}
 	}
-	// the readers that were behind catch up now: everything up to the (merged) sentinel
-	w.mu.Lock()
-	lossy := w.lossy
-	w.mu.Unlock()
-	drained := map[int][]ochange{}
-	for t, ch := range lossy {
-		out := []ochange{}
-	drain:
+	// the sentinel is the very next thing a subscriber without backpressure receives (it has taken
+	// everything else): a check that the subscription is still attached to the bus
+	for _, t := range w.lossyThreads() {
+		w.mu.Lock()
+		id, isPid := w.lpid[t]
+		closed := w.lclosed[t]
+		nc, nv := len(w.lgotC[t]), len(w.lgotV[t])
+		w.mu.Unlock()
+		if isPid {
+			if closed {
+				continue
+			}
+			w.coll.Update(id, toProto(fmsg{9003, 9003, 9003}), resource.WithCreateIfAbsent(), st)
+		}
 		for {
-			select {
-			case e, ok := <-ch:
-				if !ok || e.ChangeTime.UnixNano() == sentinelTime {
-					break drain
-				}
-				out = append(out, ochange{id: e.Id, t: e.ChangeTime.UnixNano(), kind: kindCode(e.ChangeType), old: fromProto(e.OldValue), new_: fromProto(e.NewValue), seed: e.SeedValue, last: e.LastSeedValue})
-			case <-time.After(stepTimeout):
-				r.err = fmt.Errorf("the sentinel never reached the subscriber without backpressure of thread %d", t)
-				break drain
+			got, err := w.readerStep(t)
+			if err != nil {
+				r.err = err
+				return
+			}
+			if !got {
+				break
 			}
 		}
-		drained[t] = out
+		w.mu.Lock()
+		seen := false
+		bad := false
+		for _, e := range w.lgotC[t][nc:] {
+			seen = true
+			bad = bad || e.t != sentinelTime
+		}
+		for _, e := range w.lgotV[t][nv:] {
+			seen = true
+			bad = bad || e.t != sentinelTime
+		}
+		bad = bad || (isPid && w.lclosed[t])
+		if isPid {
+			w.lgotV[t] = w.lgotV[t][:nv]
+		} else {
+			w.lgotC[t] = w.lgotC[t][:nc]
+		}
+		w.mu.Unlock()
+		if !seen || bad {
+			r.err = fmt.Errorf("the sentinel never reached the subscriber without backpressure of thread %d (or something else did after it had stopped being offered anything)", t)
+			return
+		}
 	}
 	w.mu.Lock()
 	r.vstreams, r.cstreams = map[int][]ovchange{}, map[int][]ochange{}
-	for t, l := range drained {
+	for t, l := range w.lgotC {
 		r.cstreams[t] = l
+	}
+	for t, l := range w.lgotV {
+		r.vstreams[t] = l
 	}
 	for t, l := range w.vgot {
 		out := []ovchange{}
@@ -374,6 +452,11 @@ func (w *world) finish(r *runResult) {
 			r.closed = append(r.closed, t)
 		}
 	}
+	for t := range w.lpid {
+		if w.lclosed[t] {
+			r.closed = append(r.closed, t)
+		}
+	}
 	sort.Ints(r.closed)
 	for t, l := range w.cgot {
 		out := []ochange{}
@@ -386,8 +469,6 @@ func (w *world) finish(r *runResult) {
 		r.cstreams[t] = out
 	}
 	w.mu.Unlock()
-	w.cancel()
-	w.wg.Wait()
 }
 
 // list returns the collection's contents by stored id; the ids are recovered through a
@@ -461,19 +542,43 @@ func runScheduleProbe(sc *scenario, prefix []int, pick func(alive []int) int, pr
 	for t := range sc.prog {
 		t := t
 		threads[t] = ctl.spawn(func() { r.results[t] = w.exec(t, sc.prog[t]) })
-		if sc.prog[t].kind == kSubID {
+		if sc.prog[t].kind == kSubID || (sc.prog[t].kind == kSubL && sc.prog[t].pid) {
 			threads[t].wantAdopt = true
 			threads[t].adoptCh = make(chan *thread, 1)
 		}
 	}
+	recvLeft := make([]int, len(sc.prog))
+	for t, c := range sc.prog {
+		if c.kind == kSubL {
+			recvLeft[t] = c.nrecv
+		}
+	}
 	for step := 0; ; step++ {
+		// alive: may be scheduled now; a thread held back by sc.after is not (it is not ended either)
 		var alive []int
+		waiting := false
 		for t, th := range threads {
-			if !th.ended {
-				alive = append(alive, t)
+			if th.ended && recvLeft[t] == 0 {
+				continue
 			}
+			held := false
+			if th.steps == 0 {
+				for _, p := range sc.after[t] {
+					if !threads[p].ended {
+						held = true
+					}
+				}
+			}
+			if held {
+				waiting = true
+				continue
+			}
+			alive = append(alive, t)
 		}
 		if len(alive) == 0 {
+			if waiting {
+				r.err = fmt.Errorf("scenario: every remaining thread is held back")
+			}
 			break
 		}
 		if pr != nil && step == pr.at {
@@ -483,6 +588,12 @@ func runScheduleProbe(sc *scenario, prefix []int, pick func(alive []int) int, pr
 				break
 			}
 			*pr.blocked = b
+			if w.hasLossy() {
+				if err := settle(); err != nil {
+					r.err = fmt.Errorf("probe: %v", err)
+					break
+				}
+			}
 			r.alive = append(r.alive, alive, alive)
 			r.sched = append(r.sched, pr.holder, pr.other)
 			step++
@@ -491,8 +602,12 @@ func runScheduleProbe(sc *scenario, prefix []int, pick func(alive []int) int, pr
 		var t int
 		if step < len(prefix) {
 			t = prefix[step]
-			if threads[t].ended {
-				r.err = fmt.Errorf("schedule names thread %d which has ended", t)
+			ok := false
+			for _, a := range alive {
+				ok = ok || a == t
+			}
+			if !ok {
+				r.err = fmt.Errorf("schedule names thread %d which has ended or is held back", t)
 				break
 			}
 		} else {
@@ -500,9 +615,24 @@ func runScheduleProbe(sc *scenario, prefix []int, pick func(alive []int) int, pr
 		}
 		r.alive = append(r.alive, alive)
 		r.sched = append(r.sched, t)
+		if threads[t].ended {
+			// a receive of the consumer of a subscription without backpressure
+			recvLeft[t]--
+			if _, err := w.readerStep(t); err != nil {
+				r.err = fmt.Errorf("step %d (reader of thread %d): %v", step, t, err)
+				break
+			}
+			continue
+		}
 		if err := ctl.step(threads[t]); err != nil {
 			r.err = fmt.Errorf("step %d (thread %d): %v", step, t, err)
 			break
+		}
+		if w.hasLossy() {
+			if err := settle(); err != nil {
+				r.err = fmt.Errorf("step %d (thread %d): %v", step, t, err)
+				break
+			}
 		}
 	}
 	if r.err != nil {
@@ -915,29 +1045,70 @@ func genC03(o *vcoq.Out, r *vcoq.Rand, tier string) error {
 		}
 		emitCase(o, ps.sc, rr, []string{"lock-held-probe"})
 	}
-	// a subscriber WITHOUT backpressure whose reader is behind (takes nothing until every call has
-	// returned, then drains): what the bus hands to mergeCollectionExcess must be an edit script
-	// relative to the seed, or merged changes cancel wrongly (ADD already in the seed + REMOVE)
-	lossySpecs := []struct {
+	// Subscribers WITHOUT backpressure (the default): Pull and PullID, the consumer receiving at chosen
+	// points of the schedule (reader steps) and until nothing is offered once every call has returned.
+	// What the bus hands to mergeCollectionExcess must be an edit script relative to the seed, what
+	// the merger makes of it (ADD+REMOVE = nothing, REMOVE+ADD = REPLACE, REPLACE+REMOVE = REMOVE)
+	// must reach the consumer, through PullID as well; every change received is compared with
+	// Conc/LossyPipe.v and the fold of all of them with the final List.
+	lossySub := func(pid bool, roi int, nrecv int) *fcall {
+		ro := roVariants[roi]
+		c := &fcall{kind: kSubL, ro: &ro, name: "pull-lossy", pid: pid, nrecv: nrecv}
+		if pid {
+			c.id, c.name = "a", "pull-id-lossy"
+		}
+		return c
+	}
+	type lossySpec struct {
 		present bool
 		writers []string
+		chain   bool // the writers run one after the other (ONE writer issuing these calls)
+		after   map[int][]int
+		pid     bool
 		ro      int
-	}{
-		{false, []string{"add", "delete-allow-missing"}, 0},
-		{false, []string{"upsert", "delete-check"}, 1},
-		{true, []string{"delete-expected", "add"}, 0},
-		{true, []string{"upsert"}, 0},
-		{true, []string{"upsert-delta", "update-other-id"}, 2},
+		nrecv   []int
+	}
+	lossySpecs := []lossySpec{
+		// concurrent writers, the reader behind all the time / receiving once somewhere
+		{present: false, writers: []string{"add", "delete-allow-missing"}, nrecv: []int{0, 1}},
+		{present: false, writers: []string{"upsert", "delete-check"}, ro: 1, nrecv: []int{0}},
+		{present: true, writers: []string{"delete-expected", "add"}, nrecv: []int{0, 1}},
+		{present: true, writers: []string{"upsert"}, nrecv: []int{0, 1, 2, 3}},
+		{present: true, writers: []string{"upsert-delta", "update-other-id"}, ro: 2, nrecv: []int{0}},
+		// one writer, several calls on an id the view may already hold: delete / re-add sequences
+		{present: true, chain: true, writers: []string{"delete-allow-missing", "add", "delete-allow-missing"}, nrecv: []int{0, 2}},
+		{present: true, chain: true, writers: []string{"upsert", "delete-allow-missing", "add"}, nrecv: []int{0, 2}},
+		{present: false, chain: true, writers: []string{"add", "delete-allow-missing", "add"}, ro: 1, nrecv: []int{0, 1}},
+		{present: true, chain: true, writers: []string{"delete-expected", "upsert", "upsert-delta"}, nrecv: []int{0, 3}},
+		// a commit published late (after a newer one) and then undone: Add a saved, b updated and published,
+		// a's ADD published, a deleted
+		{present: false, writers: []string{"add", "update-other-id", "delete-allow-missing"}, after: map[int][]int{2: {0}}, nrecv: []int{0}},
+		// PullID over the same pipeline
+		{present: true, pid: true, writers: []string{"upsert-delta"}, nrecv: []int{0, 1, 2}},
+		{present: true, pid: true, writers: []string{"upsert", "delete-check"}, nrecv: []int{0}},
+		{present: false, pid: true, writers: []string{"add", "delete-allow-missing"}, nrecv: []int{1}},
+		{present: true, pid: true, chain: true, writers: []string{"delete-allow-missing", "add", "delete-allow-missing"}, nrecv: []int{0, 1}},
+		{present: true, pid: true, chain: true, writers: []string{"upsert", "delete-allow-missing", "add"}, nrecv: []int{0, 1}},
+		{present: false, pid: true, chain: true, writers: []string{"add", "delete-allow-missing", "add"}, ro: 1, nrecv: []int{0, 1}},
+		{present: true, pid: true, chain: true, writers: []string{"delete-expected", "upsert", "upsert-delta"}, ro: 3, nrecv: []int{0, 2}},
 	}
 	for _, ls := range lossySpecs {
-		sc := &scenario{cinit: collInit(ls.present)}
-		for t, n := range ls.writers {
-			sc.prog = append(sc.prog, mkCall(ct(n), t, base))
+		for _, nrecv := range ls.nrecv {
+			sc := &scenario{cinit: collInit(ls.present), after: ls.after}
+			for t, n := range ls.writers {
+				sc.prog = append(sc.prog, mkCall(ct(n), t, base))
+				if ls.chain && t > 0 {
+					if sc.after == nil {
+						sc.after = map[int][]int{}
+					}
+					sc.after[t] = []int{t - 1}
+				}
+			}
+			sc.prog = append(sc.prog, lossySub(ls.pid, ls.ro, nrecv))
+			sc.tags = []string{"lossy", fmt.Sprintf("lossy-pull-id:%v", ls.pid), fmt.Sprintf("lossy-one-writer-chain:%v", ls.chain),
+				fmt.Sprintf("lossy-reader-steps:%d", nrecv), "writers:" + strings.Join(ls.writers, "+")}
+			exploreAll(sc, 0, func(rr *runResult) { emitCase(o, sc, rr, []string{"exhaustive"}) })
 		}
-		ro := roVariants[ls.ro]
-		sc.prog = append(sc.prog, &fcall{kind: kSubCL, ro: &ro, name: "pull-lossy"})
-		sc.tags = []string{"lossy-reader-behind", "writers:" + strings.Join(ls.writers, "+")}
-		exploreAll(sc, 0, func(rr *runResult) { emitCase(o, sc, rr, []string{"exhaustive"}) })
 	}
 	// a subscription opened while a Send is in flight (the publisher parked after it has copied the
 	// listener list) on a bus that still holds a cancelled listener: the new listener must survive
@@ -945,8 +1116,7 @@ func genC03(o *vcoq.Out, r *vcoq.Rand, tier string) error {
 	for _, lossy := range []bool{false, true} {
 		sub := subCall(false, roVariants[0])
 		if lossy {
-			ro := roVariants[0]
-			sub = &fcall{kind: kSubCL, ro: &ro, name: "pull-lossy"}
+			sub = lossySub(false, 0, 0)
 		}
 		sc := &scenario{cancelledSub: true, cinit: collInit(true),
 			prog: []*fcall{mkCall(ct("upsert"), 0, base), sub, mkCall(ct("update-other-id"), 2, base)},
@@ -997,10 +1167,16 @@ func genC03(o *vcoq.Out, r *vcoq.Rand, tier string) error {
 			}
 		}
 		ns := 1 + r.Intn(2)
+		nl := 0
 		for s := 0; s < ns; s++ {
+			if !value && r.Chance(50) {
+				sc.prog = append(sc.prog, lossySub(r.Chance(40), r.Intn(len(roVariants)), r.Intn(4)))
+				nl++
+				continue
+			}
 			sc.prog = append(sc.prog, subCall(value, roVariants[r.Intn(len(roVariants))]))
 		}
-		sc.tags = []string{fmt.Sprintf("sampled:%dw%ds", nw, ns)}
+		sc.tags = []string{fmt.Sprintf("sampled:%dw%ds", nw, ns), fmt.Sprintf("sampled-lossy:%d", nl)}
 		rr := runSchedule(sc, nil, func(alive []int) int { return alive[r.Intn(len(alive))] })
 		emitCase(o, sc, rr, nil)
 	}
